@@ -7,8 +7,8 @@ with support functions and signed surface functions (refs/support_fn.py):
   * the first row points from geom[0] to geom[1] and dist equals the signed separation along it:
     dist = sep(n) = -h1(n) - h2(-n) for the deepest contact of the pair (a reversed or tilted normal makes sep(n)
     collapse towards -(size1+size2)); class f32 for closed-form primitive pairs, convex-solver tolerance otherwise;
-  * pos -/+ dist/2 * n lie on the surfaces of geom[0] / geom[1] (every contact of a primitive manifold; the single
-    contact of a convex pair);
+  * pos -/+ dist/2 * n lie on the surfaces of geom[0] / geom[1] (the deepest contact of a primitive manifold; the
+    single contact of a convex pair);
   * for constructed separated poses (d > 0) the true distance is exactly d: dist = d;
   * height field: the normal never points into the terrain (n . up >= -0.1).
 """
@@ -36,7 +36,8 @@ BOUNDS = {
 }
 ASSUMPTIONS = [
   "float64 support functions / signed surface functions of sphere, capsule, ellipsoid (first order), cylinder, box, convex mesh, plane are the reference geometry",
-  "closed-form primitive pairs (class P): |dist - sep(n)| and surface residuals <= 3e-5 (float32 at coordinates < 1)",
+  "closed-form primitive pairs (class P): |dist - sep(n)| <= 3e-5 and surface residuals <= 5e-5 for the deepest contact (float32 at coordinates < 1; "
+  "measured maxima on the unchanged tree: 2e-6 / 5e-6); the other points of a primitive manifold follow MuJoCo's constructions and are only frame-checked",
   "convex pairs (GJK/EPA): tolerance 5e-4 + 0.05*margin + float32 cancellation term + 4x the deviation MuJoCo's float64 solver shows on the same input "
   "(inputs on which the reference solver itself fails the certificate are ill-conditioned for EPA); multi-contact convex manifolds share one dist, so "
   "only their deepest contact is certified and surface points are checked for single-contact results only",
@@ -134,8 +135,9 @@ def _pair(scn):
           f"P:{name}:dist_not_separation_along_normal:{zone}",
           f"{tag}: dist={float(gd['dist']):.7g} but sep(n)={sep_w:.7g} for n={np.round(n_w, 6).tolist()} (|diff|={abs(dev_w):.3g} > {tol:.3g})",
         )
-      for k in got:
-        stats["max_surface_P"] = max(stats.get("max_surface_P", 0.0), _surface(c, k, s1, s2, 5e-5, tag, f"P:{name}"))
+      # the deepest point of a primitive manifold lies on both true surfaces; the further points follow MuJoCo's
+      # constructions (e.g. plane-capsule puts the higher end's point on the end *sphere*, which is inside the capsule)
+      stats["max_surface_P"] = max(stats.get("max_surface_P", 0.0), _surface(c, gd, s1, s2, 5e-5, tag, f"P:{name}"))
       stats["max_dev_P"] = max(stats.get("max_dev_P", 0.0), abs(dev_w))
     else:
       # grade the conditioning of this input with the reference solver (same algorithm, float64)
